@@ -16,3 +16,8 @@ open Biogo.Properties.C07
 #print axioms append_columns_exact_multi
 #print axioms flush_preserves
 #print axioms initial_multi_wellformed
+#print axioms operation_preserves_wellformed
+#print axioms reachable_wellformed
+#print axioms wellformed_gives_hypotheses
+#print axioms clone_deep_edits
+#print axioms append_no_retain_history
